@@ -1,0 +1,11 @@
+//go:build verif
+
+package engine
+
+import "github.com/openGemini/openGemini/lib/fragment"
+
+// VerifC20GetSegmentRanges exposes getSegmentRanges (fragment ranges of a file -> segment ranges
+// handed to the read cursor) of the column-store reader.
+func VerifC20GetSegmentRanges(fragmentRanges, allSegmentRanges fragment.FragmentRanges) (fragment.FragmentRanges, error) {
+	return getSegmentRanges(fragmentRanges, allSegmentRanges)
+}
